@@ -7,8 +7,10 @@ from . import core
 from .c16_run import Runner, judge, canon_log
 
 PROP = "C16"
-LEAN_TARGETS = ["Asynkit.Props.C16", "Asynkit.Lemmas.GenEqC16"]
-PROPS_FILES = ["Asynkit/Props/C16.lean", "Asynkit/Lemmas/GenEqC16.lean"]
+LEAN_TARGETS = ["Asynkit.Props.C16", "Asynkit.Lemmas.GenEqC16",
+                "Asynkit.Lemmas.GenEqContextlib"]
+PROPS_FILES = ["Asynkit/Props/C16.lean", "Asynkit/Lemmas/GenEqC16.lean",
+               "Asynkit/Lemmas/GenEqContextlib.lean"]
 DRIVERS = ["Timeout"]
 TRUSTED = [
     'Lean 4.33 kernel; axioms ⊆ {propext, Classical.choice, Quot.sound} (audited per theorem each run)',
